@@ -23,21 +23,32 @@ func init() {
 	if os.Getenv("VERIF_TIER") == "thorough" {
 		Tier = 1
 	}
-	p := os.Getenv("VERIF_REPLAY")
-	if p == "" {
-		return
+	if p := os.Getenv("VERIF_REPLAY"); p != "" {
+		LoadReplay(p)
 	}
+}
+
+// LoadReplay (re)loads a replay/sample file and resets the per-tag counters.
+func LoadReplay(p string) {
 	b, err := os.ReadFile(p)
 	if err != nil {
 		panic(err)
 	}
 	var doc struct {
 		Model map[string]json.RawMessage `json:"model"`
+		Tier  string                     `json:"tier"`
 	}
 	if err := json.Unmarshal(b, &doc); err != nil {
 		panic(err)
 	}
 	replay = doc.Model
+	counters = map[string]int{}
+	if doc.Tier == "thorough" {
+		Tier = 1
+	} else if doc.Tier == "quick" {
+		Tier = 0
+	}
+	reloadPool(p)
 }
 
 func next(tag string) (string, json.RawMessage) {
@@ -132,7 +143,11 @@ func Assert(c bool, msg string) {
 	}
 }
 
-func Reach(tag string) {}
+func Reach(tag string) {
+	if replay != nil {
+		fmt.Println("VERIF-REACH:", tag)
+	}
+}
 func Unwind(n int)     {}
 
 // EqBytes compares without forking (one term under gosmt).
